@@ -27,6 +27,42 @@ EXITM, PHASE, labels; symbol family: label LX, CX EQU, VX SET, redefinitions, DB
 PUSHV / POPV, ENUM / NEXTENUM, also in skipped branches and macro / REPT bodies) the same way, because the golden
 programs contain no unexpected error; they are assembled with -L and the symbol table of the listing is tokenised
 into the FILEEND event (claim FinalTableIsListed).
+
+GROWTH ROUND 6 (EXPECT list, IFDEF against the table, pass-loop causes, named single-statement actions)
+  * EXPECT / ENDEXPECT (asmerr.c: pExpectErrors, InExpect, FindAndTakeExpectError, CodeEXPECT, CodeENDEXPECT,
+    AsmErrPassInit / AsmErrPassExit) are composed: the list lives in Diag's state (d.exp, d.inexp), its semantics are
+    DiagPos.tla's operators (Report / AddAll / TakeFirst / CodeEXPECT, by INSTANCE).  New S-event fields gk / ga (kind
+    of the statement and its tokenised arguments: an EXPECT argument is read only if it is a literal decimal number
+    and no RADIX statement has been executed; otherwise the list is `fuzzy` up to its ENDEXPECT and nothing is claimed
+    about it).  Claims: ExpectListIsHistory (a diag record is "expected" iff its number is on the list = announced
+    minus consumed; ErrsDeltaIsDiagCount therefore counts exactly the messages that were not announced),
+    EndExpectReportsExactlyUnmet, ExpectDoesNotNest, ExpectEndsWithPass.  Corpus: 1221 EXPECT blocks per pass.
+  * IfdefReadsTable (DEFINITE for C12: "IFDEF: true if the given symbol has been defined; the definition has to
+    appear before IFDEF"): the branch 6883 IFDEF / IFNDEF statements of the corpus take is the one the symbol table of
+    the specification dictates (entry found by FindLocNode / FindNode and defined in THIS pass); names that are also
+    macros / functions are not judged (macro names are scoped by section - gap).  The redefinition rules themselves
+    (SET may change, EQU / label may not, outcomes new / same / changed / redef_* / double / mix) were already
+    composed in round 5 (SymbolTableFollowsAdder, ConstantIsStable, RedefinitionIsReported) and are unchanged.
+  * PhaseErrorForcesRepass / RepassHasCause (PASSEND): Repass is set iff a constant was re-entered with another value
+    (outcome "changed"), a lookup found nothing ("unknown") - or a REG statement ran: symbol table x pass loop.
+  * named actions for what used to fall under the generic rule (histogram before: no instruction on the line 22738,
+    code in a pass that is not the last 18948, EXPECT 1221, ENDEXPECT 1221, NEWPAGE 339, PAGE 152, ASSUME 53, BIT 31,
+    END 30, ALIGN 10, ... of 355040 statements): EmptyLineIsInert, CodeLenIsEmitted (CodeLen = what the emit / reserve
+    records hand out, in every pass), ListingControlIsInert, AlignReachesBoundary, EndStopsAssembly, EndSetsEntry.
+    Share explained by a named action: 87.4 % -> 99.97 %; the remaining histogram is printed in the evidence part
+    (generic_rule_histogram).
+  * bounded model: family "exp" (AsCore_GenX.cfg: every program of <= 3 lines over 14 statements: EXPECT 1200 |
+    1200,1450 | 1200,1200, ENDEXPECT, the faulty statements that raise 1200 / 1450, a user ERROR, IF 0 / ENDIF, data,
+    END, IFDEF / IFNDEF CX, CX EQU 1; thorough: 4 lines) + 8 directed programs (second occurrence counts, unmet
+    announcement, DrainIsSubjectToList in both orders, nesting, block left open, EXPECT in macro / REPT bodies and in a
+    skipped branch, END inside a REPT body, IFDEF before / after the definition and inside a section).  The forward
+    model raises its messages through Diag!WrXErrorPos (Diag.tla's own list), StmtSucc judges them with
+    DiagPos!Report: the two stand-alone models of the list are checked against each other and against asl.
+    Invariants: ExpectListIsAnnouncedMinusConsumed, HiddenIsNeverCounted, EndIsFinal.
+  * mutations of the real code tried (scratch copies, VERIF_REPO=...): see the table in the final report of the round
+    / DESIGN.md section 12; asmerr.c: ENDEXPECT reports only the first unmet expectation; EXPECT nests silently;
+    AddExpectError appends instead of prepending; asmif.c: IFDEF ignores the Defined mark; asmpars.c: SymbolAdder does
+    not ask for another pass.
 """
 import concurrent.futures as cf
 import json
@@ -84,7 +120,8 @@ DEFINITE = {"SkippedIsInert": "a statement in a branch that is not selected had 
             "LabelValueIsExec": "a label did not get the current program counter",
             "LastPassImageEqualsFile": "the code file is not the byte stream emitted in the last pass",
             "DeliveredAsRecorded": "a REPT / WHILE body line was delivered differently from how it was written",
-            "ExitmRestoresEntryDepth": "EXITM did not reset the IF/SWITCH stack to its state before the expansion"}
+            "ExitmRestoresEntryDepth": "EXITM did not reset the IF/SWITCH stack to its state before the expansion",
+            "IfdefReadsTable": "IFDEF / IFNDEF did not select the branch the definitions in front of it dictate"}
 
 
 # ----------------------------------------------------------------------------------------------------------------
@@ -760,14 +797,13 @@ def gen_models(tier):
     cfgm = "AsCore_GenM.cfg" if tier == "quick" else "AsCore_GenM4.cfg"
     cfgs = "AsCore_GenS.cfg" if tier == "quick" else "AsCore_GenS4.cfg"
     cfgx = "AsCore_GenX.cfg" if tier == "quick" else "AsCore_GenX4.cfg"
-    nsim = 40 if tier == "quick" else 800       # (the simulator evaluates EVERY successor of a state to pick one: 40
+    nsim = 32 if tier == "quick" else 800       # (the simulator evaluates EVERY successor of a state to pick one: 40
                                                 # statements per step in the family "all")
 
     def chain1():
         mc = tlc.run("AsCore_Gen", cfg, workers=4, timeout=1500, mem="6g")
         mcm = tlc.run("AsCore_Gen", cfgm, workers=4, timeout=1500, mem="6g")
-        mcx = tlc.run("AsCore_Gen", cfgx, workers=4, timeout=1500, mem="6g")
-        return mc, mcm, mcx
+        return mc, mcm
 
     def chain2():
         mcs = tlc.run("AsCore_Gen", cfgs, workers=4, timeout=1500, mem="6g")
@@ -775,9 +811,12 @@ def gen_models(tier):
         sim = tlc.run("AsCore_Gen", "AsCore_Sim.cfg", workers=2 if tier == "quick" else 4, simulate=nsim, depth=70,
                       timeout=2400, mem="4g")
         return mcs, mcd, sim
-    with cf.ThreadPoolExecutor(max_workers=2) as ex:
-        f1, f2 = ex.submit(chain1), ex.submit(chain2)
-        mc, mcm, mcx = f1.result()
+    def chain3():
+        return tlc.run("AsCore_Gen", cfgx, workers=2, timeout=1500, mem="4g")
+    with cf.ThreadPoolExecutor(max_workers=3) as ex:
+        f1, f2, f3 = ex.submit(chain1), ex.submit(chain2), ex.submit(chain3)
+        mc, mcm = f1.result()
+        mcx = f3.result()
         mcs, mcd, sim = f2.result()
     return (cfg, cfgm, cfgs, cfgx), mc, mcm, mcd, mcs, sim, mcx
 
@@ -815,7 +854,7 @@ def generated(rep, bld, tier, models=None):
     behs = [b for (tag, b) in mc.printed if tag == "BEH"]
     behm = [b for (tag, b) in mcm.printed if tag == "BEH"]
     behsy = [b for (tag, b) in mcs.printed if tag == "BEH"]
-    behx = [b for (tag, b) in mcx.printed if tag == "BEH"]     # EXPECT family: all of it (thorough: 30 % of the 4-line)
+    behx = [b for (tag, b) in mcx.printed if tag == "BEH"]     # EXPECT family
     nall = len(behs) + len(behm) + len(behsy) + len(behx) + len(mcd.printed)
     if tier == "quick":
         # flat family: every program of up to 2 lines, a seeded fifth of the 3-line programs; macro family: a seeded
@@ -823,12 +862,13 @@ def generated(rep, bld, tier, models=None):
         r = rng("ascore-gen")
         behs = [b for b in behs if len(b["prog"]) <= 2 or r.random() < 0.2]
         behm = [b for b in behm if r.random() < 0.4]
-        behsy = [b for b in behsy if len(b["prog"]) <= 2 or r.random() < 0.2]      # symbol family: a seeded fifth of
+        behx = [b for b in behx if len(b["prog"]) <= 2 or r.random() < 0.2]        # (EXPECT family: the same)
+        behsy = [b for b in behsy if len(b["prog"]) <= 2 or r.random() < 0.25]     # symbol family: a seeded quarter of
     else:                                                                          # the 3-line programs (thorough: all
         r = rng("ascore-gen")                                                      # up to 3 lines, 15 % of the 4-line)
         behs = [b for b in behs if len(b["prog"]) <= 3 or r.random() < 0.35]
         behsy = [b for b in behsy if len(b["prog"]) <= 3 or r.random() < 0.15]
-        behx = [b for b in behx if len(b["prog"]) <= 3 or r.random() < 0.3]
+        behx = [b for b in behx if len(b["prog"]) <= 3 or r.random() < 0.12]
     behs += behm + behsy + behx + [b for (tag, b) in mcd.printed if tag == "BEH"]   # + the directed programs (regression seeds)
     seen = set(json.dumps(b["prog"]) for b in behs)
     for (tag, b) in sim.printed:
@@ -920,9 +960,11 @@ def run(rep, bld, tier):
     rep.part("AsCore_Trace(corpus)", events=tot["events"], executions=len(frags), accepted=not rejected,
              wall_s=round(time.time() - t0, 1), tlc_wall_s=tot["wall"], statements=total,
              statements_by_class={k: v for k, v in sorted(classes.items()) if not k.startswith("machine:")
-                                  and k not in ("named", "generic")},
+                                  and not k.startswith("generic-op:") and k not in ("named", "generic")},
              share_handled_by_a_named_action=round(classes.get("named", 0) / total, 4),
              share_generic_rule=round(classes.get("generic", 0) / total, 4),
-             share_per_machine=per_machine, skipped=skipped)
+             share_per_machine=per_machine, skipped=skipped,
+             generic_rule_histogram=dict(sorted(((k.split(":", 1)[1], v) for k, v in classes.items()
+                                                 if k.startswith("generic-op:")), key=lambda kv: -kv[1])[:15]))
     for frag, r in rejected:
         report_rejection(rep, "golden test", frag, r)
